@@ -12,11 +12,14 @@ import (
 // patterns and candidates; the regexp engine is host code).
 func VerifC18_UserType() {
 	zzverif.Expect("accepted", "rejected")
-	pats := []string{"^[a-c]+$", "^x\\d$", "^(ab|cd)$", "^$"}
-	cands := []string{"abc", "x1", "cd", "", "zz", "x", "abd"}
+	pats := []string{"^[a-c]+$", "^x\\d$", "^(ab|cd)$", "^$", "^a{2}$", "^\\\\$", "^\"$", "^a\\.b$"}
+	// candidates: JSON spelling and decoded value
+	cands := [][2]string{{"abc", "abc"}, {"x1", "x1"}, {"cd", "cd"}, {"", ""}, {"zz", "zz"}, {"x", "x"}, {"abd", "abd"},
+		{"aa", "aa"}, {"a{2}", "a{2}"}, {"\\\\", "\\"}, {"\\\"", "\""}, {"a.b", "a.b"}}
 	p := pats[zzverif.IntRange("pattern", 0, len(pats)-1)]
-	c := cands[zzverif.IntRange("candidate", 0, len(cands)-1)]
-	root := New("root", `"`+c+`" // {type: "@r"}`)
+	cand := cands[zzverif.IntRange("candidate", 0, len(cands)-1)]
+	c := cand[1]
+	root := New("root", `"`+cand[0]+`" // {type: "@r"}`)
 	err := root.AddType("@r", regex.New("r", "/"+p+"/"))
 	zzverif.Assert(err == nil, "a valid regex schema can be registered as a user type")
 	cerr := root.Check()
